@@ -847,3 +847,107 @@ func identOf(e ast.Expr) *ast.Ident {
 	id, _ := ast.Unparen(e).(*ast.Ident)
 	return id
 }
+
+// ---------- R-TLS/certgen ----------
+
+// ruleCertGen — the AutoMTLS credential generator: every key and certificate
+// is produced from crypto/rand.Reader, the certificate is self-signed with
+// the generated key over that key's public half, and the private key that is
+// returned is that same key. (If the key were predictable, or the returned key
+// did not belong to the certificate, "only the peer holding the announced
+// certificate" would not identify anybody.)
+func ruleCertGen(c *Ctx) {
+	p := c.P
+	n := 0
+	for _, f := range p.Funcs {
+		if f.Decl == nil || !notTesting(p, f) {
+			continue
+		}
+		info := f.Pkg.TypesInfo
+		var create *ast.CallExpr
+		for _, call := range f.Calls() {
+			if p.CalleeName(f, call) == "crypto/x509.CreateCertificate" {
+				create = call
+			}
+		}
+		if create == nil || len(create.Args) != 5 {
+			continue
+		}
+		n++
+		isCryptoRand := func(e ast.Expr) bool {
+			return objFullName(objOfExpr(info, p.Deref(f, e))) == "crypto/rand.Reader"
+		}
+		var probs []string
+		if !isCryptoRand(create.Args[0]) {
+			probs = append(probs, "x509.CreateCertificate does not draw from crypto/rand.Reader")
+		}
+		// key generation calls
+		var keyVar *types.Var
+		for _, call := range f.Calls() {
+			nm := p.CalleeName(f, call)
+			if !strings.HasSuffix(nm, ".GenerateKey") || !strings.HasPrefix(nm, "crypto/") {
+				continue
+			}
+			okRand := false
+			for _, a := range call.Args {
+				if isCryptoRand(a) {
+					okRand = true
+				}
+			}
+			if !okRand {
+				probs = append(probs, nm+" does not draw from crypto/rand.Reader")
+			}
+			if v := assignedVar(p, info, call); v != nil {
+				keyVar = v
+			}
+		}
+		if keyVar == nil {
+			probs = append(probs, "no generated key found")
+		} else {
+			// signed with the generated key, over its public half, self-signed
+			if identObj(info, create.Args[4]) != keyVar {
+				probs = append(probs, "the certificate is not signed with the generated key")
+			}
+			pubOK := false
+			if pc, ok := ast.Unparen(p.Deref(f, create.Args[3])).(*ast.CallExpr); ok {
+				if se, ok := pc.Fun.(*ast.SelectorExpr); ok && se.Sel.Name == "Public" && identObj(info, se.X) == keyVar {
+					pubOK = true
+				}
+			}
+			if u, ok := ast.Unparen(p.Deref(f, create.Args[3])).(*ast.UnaryExpr); ok && u.Op == token.AND {
+				if se, ok := u.X.(*ast.SelectorExpr); ok && se.Sel.Name == "PublicKey" && identObj(info, se.X) == keyVar {
+					pubOK = true
+				}
+			}
+			if !pubOK {
+				probs = append(probs, "the certified public key is not the generated key's public half")
+			}
+			if identObj(info, create.Args[1]) == nil || identObj(info, create.Args[1]) != identObj(info, create.Args[2]) {
+				probs = append(probs, "the certificate is not self-signed (template and parent differ)")
+			}
+			// the private key returned is the generated key
+			marshalled := false
+			for _, call := range f.Calls() {
+				nm := p.CalleeName(f, call)
+				if strings.HasPrefix(nm, "crypto/x509.Marshal") && strings.Contains(nm, "PrivateKey") && len(call.Args) == 1 {
+					if identObj(info, call.Args[0]) == keyVar {
+						marshalled = true
+					} else {
+						probs = append(probs, "a private key other than the generated one is marshalled")
+					}
+				}
+			}
+			if !marshalled {
+				probs = append(probs, "the generated private key is not what is returned")
+			}
+		}
+		if len(probs) == 0 {
+			c.R.Hold("R-TLS/certgen", p.Pos(f.Node()), f.Name, "AutoMTLS credentials", "key and certificate from crypto/rand.Reader; self-signed with the generated key; that key is returned", true)
+		} else {
+			c.R.Violate("R-TLS/certgen", p.Pos(f.Node()), f.Name, "AutoMTLS credentials", strings.Join(probs, "; ")+": the certificate announced in the handshake no longer identifies a peer that holds an unpredictable key", nil)
+		}
+	}
+	if n == 0 {
+		c.R.Undecided("R-TLS/certgen", "generateCert", "anchor", "no function calling x509.CreateCertificate found")
+	}
+}
